@@ -138,3 +138,133 @@ Proof.
   rewrite nth_repeat. apply add_0_l.
 Qed.
 End Bincount.
+
+(* ---------------------------------------------------------------------------------------------- *)
+(* the field section                                                                               *)
+(* ---------------------------------------------------------------------------------------------- *)
+Section Th.
+Variable R : Type.
+Variables (r0 r1 : R) (radd rmul rsub : R -> R -> R) (ropp : R -> R) (rdiv : R -> R -> R) (rinv : R -> R).
+Hypothesis Rfield : field_theory r0 r1 radd rmul rsub ropp rdiv rinv (@eq R).
+Add Field Rf : Rfield.
+
+Local Infix "+" := radd.
+Local Infix "*" := rmul.
+Local Notation get := (get R r0).
+Local Notation ofn := (of_nat R r0 r1 radd).
+
+(* Sum n F = F 0 + ... + F (n-1) *)
+Fixpoint Sum (n : nat) (F : nat -> R) : R :=
+  match n with O => r0 | S k => Sum k F + F k end.
+
+Lemma Sum_ext n F G : (forall j, j < n -> F j = G j) -> Sum n F = Sum n G.
+Proof. induction n; simpl; intros H; [reflexivity|]. rewrite IHn, H by auto. reflexivity. Qed.
+
+Lemma Sum_add n F G : Sum n (fun j => F j + G j) = Sum n F + Sum n G.
+Proof. induction n; simpl; [ring|]. rewrite IHn. ring. Qed.
+
+Lemma Sum_scale n F c : Sum n (fun j => F j * c) = Sum n F * c.
+Proof. induction n; simpl; [ring|]. rewrite IHn. ring. Qed.
+
+Lemma Sum_zero n : Sum n (fun _ => r0) = r0.
+Proof. induction n; simpl; [reflexivity|]. rewrite IHn. ring. Qed.
+
+Lemma Sum_shift n F : Sum (S n) F = F 0 + Sum n (fun j => F (S j)).
+Proof. induction n; [simpl; ring|]. change (Sum (S (S n)) F) with (Sum (S n) F + F (S n)). rewrite IHn. simpl. ring. Qed.
+
+Lemma Sum_swap a b (G : nat -> nat -> R) :
+  Sum a (fun i => Sum b (fun k => G i k)) = Sum b (fun k => Sum a (fun i => G i k)).
+Proof.
+  induction a; simpl; [symmetry; apply Sum_zero|].
+  rewrite IHa. rewrite <- Sum_add. reflexivity.
+Qed.
+
+Lemma Sum_split a b F : Sum (a * b) F = Sum a (fun i => Sum b (fun k => F (i * b + k))).
+Proof.
+  induction a; simpl; [reflexivity|].
+  rewrite <- IHa. clear IHa.
+  replace (b + a * b) with (a * b + b) by lia.
+  generalize (a * b) as m. intros m.
+  induction b; simpl.
+  - rewrite Nat.add_0_r. ring.
+  - replace (m + S b) with (S (m + b)) by lia. simpl. rewrite IHb. ring.
+Qed.
+
+(* picking one index out of a sum *)
+Lemma Sum_pick n k (F : nat -> R) :
+  k < n -> Sum n (fun b => if k =? b then F b else r0) = F k.
+Proof.
+  induction n; intros H; [lia|]. simpl.
+  destruct (Nat.eq_dec k n) as [->|Hne].
+  - rewrite Nat.eqb_refl. rewrite (Sum_ext n _ (fun _ => r0)).
+    + rewrite Sum_zero. ring.
+    + intros j Hj. destruct (n =? j) eqn:E; [apply Nat.eqb_eq in E; lia|reflexivity].
+  - assert (E : (k =? n) = false) by (apply Nat.eqb_neq; exact Hne). rewrite E.
+    rewrite IHn by lia. ring.
+Qed.
+
+(* bsum (head first) as an indexed sum *)
+Lemma bsum_Sum (idx : list nat) (w : list R) b :
+  length w = length idx ->
+  bsum r0 radd idx w b = Sum (length idx) (fun j => if nth j idx 0 =? b then get w j else r0).
+Proof.
+  revert w; induction idx as [|i idx IH]; intros [|v w] HL; simpl in HL; try discriminate; [reflexivity|].
+  change (length (i :: idx)) with (S (length idx)). rewrite Sum_shift. simpl bsum.
+  rewrite IH by lia. reflexivity.
+Qed.
+
+Lemma radd_assoc x y z : x + (y + z) = (x + y) + z. Proof. ring. Qed.
+Lemma radd_0_r x : x + r0 = x. Proof. ring. Qed.
+Lemma radd_0_l x : r0 + x = x. Proof. ring. Qed.
+
+Lemma get_map_seq (f : nat -> R) n t : t < n -> get (map f (seq 0 n)) t = f t.
+Proof. apply nth_map_seq. Qed.
+
+(* ---- DOFDistributor._times --------------------------------------------------------------------- *)
+Lemma dist_times_length pre n post nbin pindex x :
+  length (dist_times R r0 pre n post nbin pindex x) = pre * n * post.
+Proof. unfold dist_times. rewrite map_length, seq_length. reflexivity. Qed.
+
+Lemma dist_times_get pre n post nbin pindex x i1 j i3 :
+  i1 < pre -> j < n -> i3 < post ->
+  get (dist_times R r0 pre n post nbin pindex x) (idx3 n post i1 j i3)
+  = get x (idx3 nbin post i1 (nth j pindex 0) i3).
+Proof.
+  intros H1 Hj H3. unfold dist_times.
+  rewrite get_map_seq by (apply idx3_lt; assumption).
+  destruct (idx3_decode n post i1 j i3 Hj H3) as (E1 & E2 & E3).
+  rewrite E1, E2, E3. reflexivity.
+Qed.
+
+(* ---- DOFDistributor._adjoint_times ------------------------------------------------------------- *)
+Lemma dist_adjoint_length pre n post nbin pindex x :
+  length (dist_adjoint R r0 radd pre n post nbin pindex x) = pre * nbin * post.
+Proof. unfold dist_adjoint. rewrite map_length, seq_length. reflexivity. Qed.
+
+Lemma column_length n post x i1 i3 : length (column R r0 n post x i1 i3) = n.
+Proof. unfold column. rewrite map_length, seq_length. reflexivity. Qed.
+
+Lemma dist_adjoint_get pre n post nbin pindex x i1 b i3 :
+  length pindex = n -> Forall (fun i => i < nbin) pindex ->
+  i1 < pre -> b < nbin -> i3 < post ->
+  get (dist_adjoint R r0 radd pre n post nbin pindex x) (idx3 nbin post i1 b i3)
+  = Sum n (fun j => if nth j pindex 0 =? b then get x (idx3 n post i1 j i3) else r0).
+Proof.
+  intros HL Hall H1 Hb H3. unfold dist_adjoint.
+  rewrite get_map_seq by (apply idx3_lt; assumption).
+  destruct (idx3_decode nbin post i1 b i3 Hb H3) as (E1 & E2 & E3).
+  rewrite E1, E2, E3.
+  assert (Hc : i1 * post + i3 < pre * post) by nia.
+  rewrite (nth_map_seq _ _ _ [] Hc).
+  assert (Hp : post <> 0) by lia.
+  assert (Ed : (i1 * post + i3) / post = i1).
+  { rewrite Nat.div_add_l by exact Hp. rewrite Nat.div_small by exact H3. lia. }
+  assert (Em : (i1 * post + i3) mod post = i3).
+  { rewrite Nat.add_comm, Nat.mod_add by exact Hp. apply Nat.mod_small; exact H3. }
+  rewrite Ed, Em. unfold bincount, Model.get.
+  rewrite (bincountG_nth r0 radd radd_assoc radd_0_r radd_0_l) by assumption.
+  rewrite bsum_Sum by (rewrite column_length; auto).
+  rewrite HL, radd_0_l. apply Sum_ext. intros j Hj.
+  destruct (nth j pindex 0 =? b); [|reflexivity].
+  unfold column. rewrite get_map_seq by exact Hj. reflexivity.
+Qed.
